@@ -211,6 +211,59 @@ func init() {
 					rec("", 0)
 					w.Finish()
 				}, Eval: evalC19Decode},
+			{Name: "decoder-long-digit-runs", Space: "(&#x | &#X | &#) + first digit in {'',1,7,8,9,F} + 0^k or F^k / 9^k for every k in 0..40 + last digits in {'',6A,41,106,00,FF} + {'', ';', 'g'}: accumulator widths of 32 and 64 bits are crossed", Share: 1,
+				Run: func(w *fw.W) {
+					var items []string
+					for _, p := range []string{"&#x", "&#X", "&#"} {
+						hi := "F"
+						if p == "&#" {
+							hi = "9"
+						}
+						for _, f := range []string{"", "1", "7", "8", "9", "F"} {
+							for _, m := range []string{"0", hi} {
+								for k := 0; k <= 40; k++ {
+									for _, l := range []string{"", "6A", "41", "106", "00", "FF"} {
+										for _, sfx := range []string{"", ";", "g"} {
+											items = append(items, p+f+strings.Repeat(m, k)+l+sfx)
+										}
+									}
+								}
+							}
+						}
+					}
+					w.Each(len(items), func(i int) { w.Item(items[i], "") })
+				}, Eval: evalC19Decode},
+			{Name: "whitespace-around-equals", Space: "every URL attribute x 4 schemes x 3 quotings x every run of <=2 bytes over {space, NUL, LF, TAB} before and after the '=' (441 combinations), public IsXSS", Share: 1,
+				Run: func(w *fw.W) {
+					ws := []string{""}
+					for _, a := range []string{" ", "\x00", "\n", "\t"} {
+						ws = append(ws, a)
+						for _, b := range []string{" ", "\x00", "\n", "\t"} {
+							ws = append(ws, a+b)
+						}
+					}
+					type it struct{ in, aux string }
+					var items []it
+					for _, sc := range urlSchemes {
+						for _, a := range c19URLAttrs {
+							for _, q := range []string{"", "'", "\""} {
+								for _, b := range ws {
+									for _, c := range ws {
+										items = append(items, it{"<a " + a + b + "=" + c + q + sc + "x(1)" + q + ">", sc})
+									}
+								}
+							}
+						}
+					}
+					w.Each(len(items), func(i int) { w.Item(items[i].in, items[i].aux) })
+				}, Eval: func(w *fw.W, in, aux string) {
+					if !lib.IsXSS(in) {
+						w.Fail("xss-missed", fmt.Sprintf("IsXSS(%q)=false (%s with blanks / NULs around '=')", in, aux))
+						return
+					}
+					w.Traces(1)
+					w.NonTrivial()
+				}},
 			{Name: "matcher-encodings", Space: "schemes x per-byte encodings x leading junk x NUL/LF insertion, URL predicate", Share: 4,
 				Run: func(w *fw.W) {
 					idx := 0
